@@ -122,7 +122,29 @@ class Rec:
         args = tuple(self.operand(a, depth) for a in t['args'])
         if c is None:
             return ('icall', self.operand(t['func'], depth), args)
-        return ('call', short(c), args, t.get('resolved_full') or t.get('callee_full'))
+        sc = short(c)
+        if sc.endswith('::next') and len(args) == 1 and ('Iterator' in sc or 'iter' in sc):
+            src = self.iter_source(args[0], depth)
+            if src is not None:
+                return ('next', src[0], src[1])
+        return ('call', sc, args, t.get('resolved_full') or t.get('callee_full'))
+
+    def iter_source(self, a, depth=0):
+        """`&mut it` where `it` is a for-loop iterator variable: return (source expression, local)."""
+        while a[0] in ('ref', 'deref'):
+            a = a[1]
+        if a[0] != 'v':
+            return None
+        l = a[1]
+        d = self.defs.get(l, [])
+        if len(d) != 1 or self.fn.partial.get(l):
+            return None
+        bi, si, x = d[0]
+        src = self.call(x, depth + 1) if si == 'term' else self.rvalue(x, depth + 1)
+        # strip IntoIterator::into_iter wrappers
+        while src[0] == 'call' and src[1].endswith('into_iter') and len(src[2]) == 1:
+            src = src[2][0]
+        return src, l
 
     def rvalue(self, rv, depth=0):
         k = rv['k']
@@ -155,6 +177,24 @@ class Rec:
         return ('?', rv.get('text', k))
 
 
+def stores(fn, rec=None):
+    """Memory writes through projected places: list of dict(block, target, value, stmt)."""
+    rec = rec or Rec(fn)
+    out = []
+    for bi, blk in enumerate(fn.blocks):
+        if blk['cleanup']:
+            continue
+        for si, st in enumerate(blk['stmts']):
+            if st['k'] == 'assign' and st['p']['pr']:
+                out.append({'block': bi, 'idx': si, 'target': rec.place(st['p']), 'value': rec.rvalue(st['rv']),
+                            'span': st.get('span')})
+        t = blk['term']
+        if t['k'] == 'call' and t['dest']['pr']:
+            out.append({'block': bi, 'idx': 'term', 'target': rec.place(t['dest']), 'value': rec.call(t),
+                        'span': t.get('span')})
+    return out
+
+
 def short_const(p):
     return short(p)
 
@@ -172,6 +212,9 @@ def ref(e):
 
 
 def field(e, name, idx):
+    # (next(&it) as Some).0  ->  element of the iteration
+    if e[0] == 'down' and e[2] == 'Some' and e[1][0] == 'next' and idx == 0:
+        return ('elem', e[1][1], e[1][2])
     # (a WithOverflow b).0  ->  a op b
     if e[0] == 'bin' and e[1].endswith('WithOverflow') and idx == 0:
         return ('bin', e[1][:-len('WithOverflow')], e[2], e[3])
@@ -228,6 +271,10 @@ def _show(e):
         return f'({_show(e[1])} as {e[2]})'
     if t == 'discr':
         return f'discr({_show(e[1])})'
+    if t == 'next':
+        return f'next#{e[2]}({_show(e[1])})'
+    if t == 'elem':
+        return f'elem#{e[2]}({_show(e[1])})'
     return str(e)
 
 
@@ -271,8 +318,12 @@ def calls_in(e, name_suffix):
 # ---------------------------------------------------------------------------
 # linear normal form over integers:  {atom(str) : Fraction} with '' the constant term
 
-IDENT_CALLS = ('core::convert::AsRef::as_ref', 'core::convert::Into::into', 'core::convert::From::from',
-               'core::clone::Clone::clone', 'core::borrow::Borrow::borrow', 'core::ops::Deref::deref')
+IDENT_SUFFIXES = ('::AsRef::as_ref', '::AsMut::as_mut', '::Into::into', '::From::from', '::Clone::clone',
+                  '::Borrow::borrow', '::Deref::deref', '::DerefMut::deref_mut', '::IntoIterator::into_iter')
+
+
+def is_ident_call(name):
+    return name.endswith(IDENT_SUFFIXES)
 
 
 def canon(e):
@@ -293,7 +344,7 @@ def canon(e):
     if t == 'v':
         return f'_{e[1]}'
     if t == 'call':
-        if e[1] in IDENT_CALLS and len(e[2]) == 1:
+        if is_ident_call(e[1]) and len(e[2]) == 1:
             return canon(e[2][0])
         return f"{e[1]}({','.join(canon(a) for a in e[2])})"
     if t == 'bin':
@@ -314,6 +365,12 @@ def canon(e):
         return f'{canon(e[1])}@{e[2]}'
     if t == 'discr':
         return f'discr({canon(e[1])})'
+    if t == 'next':
+        return f'next({canon(e[1])})'
+    if t == 'elem':
+        return f'elem({canon(e[1])})'
+    if t == 'sub':
+        return f'{canon(e[1])}[{e[2]}..{e[3]}{"e" if e[4] else ""}]'
     return str(e)
 
 
@@ -350,7 +407,7 @@ def lin(e):
             if set(b) <= {''}:
                 c = 1 << int(b.get('', 0))
                 return {k: v * c for k, v in lin(e[2]).items()}
-    if t == 'call' and e[1] in IDENT_CALLS and len(e[2]) == 1:
+    if t == 'call' and is_ident_call(e[1]) and len(e[2]) == 1:
         return lin(e[2][0])
     return {canon_atom(e): Fraction(1)}
 
